@@ -47,9 +47,15 @@ const (
 	fTop           // top-level (outside root) A<i>x<j>: root.<ref j>.out ; d<j>: A<i>x<j>
 	fGroup         // dl<p>: {for k, x in mid<p> {(k): x.out}}  all late tasks spawned by p (and p itself)
 	nForms
+	// forms used only by the configuration-driven (FLOWX) workflows: their dependency sets are
+	// DISCOVERED by the model (Flow/Discover.v), there is no generator ground truth for them
+	fEncl    // e<k>: g<k>             reference to an enclosing struct that contains tasks
+	fEnclMid // em<p>: mid<p>          reference to the struct that holds the late tasks of p
+	fAux2    // c<i>x<j>: <ref j>.out; b<i>x<j>: c<i>x<j> (alias chain outside tasks); d<j>: b<i>x<j>
+	fLateRef // dr<l>: mid<p>.t<l>.out reference into a task that does not exist yet
 )
 
-var formNames = []string{"root", "out", "nested", "aux", "interp", "deep", "top", "group"}
+var formNames = []string{"root", "out", "nested", "aux", "interp", "deep", "top", "group", "", "encl", "enclmid", "aux2", "lateref"}
 
 type edge struct {
 	to   int
@@ -113,7 +119,10 @@ func (w *wfSpec) body(i int, ind string, auxRoot, auxTop *[]string) string {
 		fmt.Fprintf(&b, "%s\tspawn: [...int]\n", ind)
 	}
 	for _, e := range t.edges {
-		r := w.ref(e.to)
+		r := ""
+		if e.form != fEncl && e.form != fEnclMid {
+			r = w.ref(e.to)
+		}
 		switch e.form {
 		case fRoot:
 			fmt.Fprintf(&b, "%s\td%d: %s\n", ind, e.to, r)
@@ -133,6 +142,16 @@ func (w *wfSpec) body(i int, ind string, auxRoot, auxTop *[]string) string {
 			fmt.Fprintf(&b, "%s\td%d: A%dx%d\n", ind, e.to, i, e.to)
 		case fGroup:
 			fmt.Fprintf(&b, "%s\tdl%d: {for k, x in mid%d {(k): x.out}}\n", ind, e.to, e.to)
+		case fEncl:
+			fmt.Fprintf(&b, "%s\te%d: g%d\n", ind, e.to, e.to)
+		case fEnclMid:
+			fmt.Fprintf(&b, "%s\tem%d: mid%d\n", ind, e.to, e.to)
+		case fAux2:
+			*auxRoot = append(*auxRoot, fmt.Sprintf("c%dx%d: %s.out", i, e.to, r))
+			*auxRoot = append(*auxRoot, fmt.Sprintf("b%dx%d: c%dx%d", i, e.to, i, e.to))
+			fmt.Fprintf(&b, "%s\tdb%d: b%dx%d\n", ind, e.to, i, e.to)
+		case fLateRef:
+			fmt.Fprintf(&b, "%s\tdr%d: %s.out\n", ind, e.to, r)
 		}
 	}
 	fmt.Fprintf(&b, "%s}", ind)
@@ -228,6 +247,9 @@ func (w *wfSpec) fillParts(i int) []map[string]any {
 func (w *wfSpec) seenPaths(i int) map[int]string {
 	m := map[int]string{}
 	for _, e := range w.tasks[i].edges {
+		if e.form > nForms {
+			continue // configuration-only forms: nothing is looked up at dispatch
+		}
 		d := "d" + strconv.Itoa(e.to)
 		switch e.form {
 		case fRoot:
@@ -1248,6 +1270,10 @@ func main() {
 		fmt.Println(res.detail)
 		return
 	}
+	if f := args["--probe"]; f != "" {
+		probeCue(f)
+		return
+	}
 	if line := args["--cyc-line"]; line != "" {
 		runCycLine(line, out)
 		return
@@ -1279,6 +1305,36 @@ func main() {
 			}
 			jobs = append(jobs, job{w: w, src: src, sch: s, extra: what})
 		}
+	}
+
+	// configuration-driven workflows: their own PRNG stream, so that one of them can be
+	// regenerated (--only-x) without the jobs above
+	const xreps = 2
+	rx := common.NewRng(seed*0x9e3779b97f4a7c15 + 0xc18)
+	var xjobs []job
+	for i := 0; i < nflow/4; i++ {
+		w := genXWF(rx)
+		src := w.render()
+		for k := 0; k < xreps; k++ {
+			s := &randomSched{r: rx.Fork(), failTask: -1, cancelAt: -1}
+			if k > 0 && rx.Chance(1, 4) {
+				s.failTask = rx.Intn(len(w.tasks))
+			}
+			xjobs = append(xjobs, job{w: w, src: src, sch: s, extra: "x"})
+		}
+	}
+	if onlyX := common.Atoi(args["--only-x"], -1); onlyX >= 0 {
+		if onlyX >= len(xjobs) {
+			fmt.Fprintln(os.Stderr, "no such x job")
+			os.Exit(2)
+		}
+		j := xjobs[onlyX]
+		j.sch = &scriptSched{acts: parseScript(args["--script"])}
+		o := runJobs([]job{j}, 1)[0]
+		out.Emit(xCaseLine(j.w, o), o.implLine)
+		fmt.Fprintln(os.Stderr, j.src)
+		fmt.Fprintln(os.Stderr, o.res.detail)
+		return
 	}
 
 	if only >= 0 {
@@ -1403,6 +1459,40 @@ func main() {
 
 	for i := 0; i < ncyc; i++ {
 		genCyc(r, out)
+	}
+
+	// ---- configuration-driven cases (dependency DISCOVERY by the model, Flow/Discover.v)
+	// FLOWC: every second random job above once more, the model now gets the task-graph
+	// configuration instead of the generator's ground-truth dependency graph.
+	for i := 0; i < len(outs); i += 2 {
+		o := outs[i]
+		if !strings.HasPrefix(o.caseLine, "FLOW ") {
+			continue
+		}
+		labels := o.caseLine[strings.LastIndex(o.caseLine, "|")+1:]
+		fmt.Fprintf(cue, "%d\t%s\n", out.N, strings.ReplaceAll(jobs[i].src, "\n", "\\n"))
+		out.Emit(fmt.Sprintf("FLOWC %d | %s |%s", len(jobs[i].w.tasks), jobs[i].w.config(), labels), o.implLine)
+		stats["flowc_cases"]++
+	}
+	// FLOWX: workflows with reference forms that have no generator ground truth at all.
+	xouts := runJobs(xjobs, par)
+	for i, o := range xouts {
+		fmt.Fprintf(cue, "%d\t%s\n", out.N, strings.ReplaceAll(xjobs[i].src, "\n", "\\n"))
+		out.Emit(xCaseLine(xjobs[i].w, o), o.implLine)
+		stats["flowx_cases"]++
+		stats["flowx_kind_"+o.kind]++
+		if k := i % xreps; k == 0 {
+			for _, t := range xjobs[i].w.tasks {
+				for _, e := range t.edges {
+					if e.form > nForms {
+						stats["xform_"+formNames[e.form]]++
+					}
+				}
+			}
+		}
+		if o.res.detail != "" {
+			fmt.Fprintf(detail, "xjob %d kind=%s\n%s\n%s\n--\n", i, o.kind, xjobs[i].src, o.res.detail)
+		}
 	}
 	sf, _ := os.Create(outDir + "/stats.json")
 	keys := make([]string, 0, len(stats))
